@@ -109,7 +109,7 @@ def inject(rng, g, texts):
     victim = rng.choice(sorted(texts))
     t = texts[victim]
     kind = rng.choice(['respell', 'respell', 'respell', 'drop-decl', 'dup-decl', 'drop-import', 'missing-module', 'garbage', 'truncate', 'respell-import',
-                       'defval-brackets', 'defval-swap', 'smi-spelling'])
+                       'defval-brackets', 'defval-swap', 'smi-spelling', 'append-decl', 'append-decl'])
     segs = t.split('"')
 
     def words():
@@ -158,6 +158,24 @@ def inject(rng, g, texts):
         out[victim] = mibgen.print_module(dict(m, imports=imports), __import__('random').Random(0))
     elif kind == 'missing-module':
         del out[victim]
+    elif kind == 'append-decl':
+        # a declaration the grammar accepts and the later passes must refuse in their own way: an OID value below a type,
+        # an in-place SEQUENCE as SYNTAX, a type that is its own base (directly, or through a default that asks for its base)
+        tnames = sorted(set(w for si, a, b, w in words() if w[0].isupper() and w not in mibgen.SMI_IMPORTABLE and not w.isupper()))
+        decl = rng.choice([
+            'ZzPlain9 ::= OCTET STRING zzBelowType OBJECT IDENTIFIER ::= { ZzPlain9 1 }',
+            'zzBelowTc OBJECT IDENTIFIER ::= { %s 1 }' % (rng.choice(tnames) if tnames else 'DisplayString'),
+            'zzInPlace OBJECT-TYPE SYNTAX SEQUENCE { zzCol Integer32 } MAX-ACCESS read-only STATUS current DESCRIPTION "x" ::= { mib-2 998 }',
+            'ZzSelf ::= ZzSelf zzSelfObj OBJECT-TYPE SYNTAX ZzSelf MAX-ACCESS read-only STATUS current DESCRIPTION "x" DEFVAL { 1 } ::= { mib-2 997 }',
+            'ZzA ::= ZzB ZzB ::= ZzA zzLoopObj OBJECT-TYPE SYNTAX ZzA MAX-ACCESS read-only STATUS current DESCRIPTION "x" DEFVAL { 1 } ::= { mib-2 996 }',
+        ])
+        end = t.rstrip().rfind('END')
+        new = t[:end] + decl + '\n' + t[end:]
+        semi = new.find(';')
+        if decl.startswith('ZzSelf') and 'IMPORTS' in new[:semi if semi > 0 else 0]:
+            # the type imported from the module itself: the symbol pass takes an imported name for granted
+            new = new[:semi] + ' ZzSelf FROM %s' % victim + new[semi:]
+        out[victim] = new
     elif kind == 'smi-spelling':
         # a type of the module renamed, at every occurrence, to a sloppy upper-case spelling of an SMI type: still one
         # consistent module, but the symbol table reads those names as the SMI types
